@@ -129,7 +129,8 @@ DEF_RULES = [
     ("unknown-tag", True, "R1: !bogus\n  fields:\n    a: int\n"),
 ]
 
-POSITIONS = ["alias", "field", "genarg", "vecitem", "mapvalue", "unioncase", "optional", "step", "streamitem", "aliaschain", "arrayitem"]
+POSITIONS = ["alias", "field", "genarg", "vecitem", "mapvalue", "unioncase", "optional", "step", "streamitem", "aliaschain", "arrayitem",
+             "untaggedcase", "untaggedopt", "untaggedinvec"]
 
 
 def embed(pos: str, ty: str, pfx: str) -> str:
@@ -158,6 +159,12 @@ def embed(pos: str, ty: str, pfx: str) -> str:
     if pos == "streamitem":
         return "%sProto: !protocol\n  sequence:\n    bad: !stream\n      items: !vector {items: %s}\n" % (pfx, ty) if ty.startswith("[") else \
                "%sProto: !protocol\n  sequence:\n    bad: !stream\n      items: %s\n" % (pfx, ty)
+    if pos == "untaggedcase":       # a case of a union written in the short form: its tag is derived from the spelling of the case type
+        return "%sRec: !record\n  fields:\n    bad: [bool, %s]\n" % (pfx, ty)
+    if pos == "untaggedopt":
+        return "%sRec: !record\n  fields:\n    bad: [null, %s]\n" % (pfx, ty)
+    if pos == "untaggedinvec":
+        return "%sAl: !vector {items: [string, %s]}\n%sRec: !record\n  fields:\n    bad: !map {keys: string, values: %sAl}\n" % (pfx, ty, pfx, pfx)
     if pos == "aliaschain":
         return "%sA1: %s\n%sA2: %sA1\n%sRec: !record\n  fields:\n    bad: %sA2*\n" % (pfx, ty, pfx, pfx, pfx, pfx)
     raise ValueError(pos)
@@ -369,8 +376,71 @@ def run(ctx):
                     bad = True
         if not bad:
             shutil.rmtree(cdir, ignore_errors=True)
+    lookalike_scenarios(ctx, home)
     ctx.sample({"rule": TYPE_RULES[0][0], "type": TYPE_RULES[0][2], "position": "genarg", "defs": embed("genarg", TYPE_RULES[0][2], "Inj")})
     ctx.sample({"rule": DEF_RULES[12][0], "defs": DEF_RULES[12][2]})
+
+
+def lookalike_scenarios(ctx, home):
+    """A violation that only exists after type arguments are substituted (duplicate union cases, a record as map key), in a package that also
+    holds a *valid* use with the same spelling that means something else: the same alias name defined differently in the imported package, a type
+    parameter that shadows an alias, the same generic name in two namespaces. Each scenario is first run without the look-alike (control)."""
+    lib_generics = "Either<A, B>: [A, B]\nTable<K>: !map {keys: K, values: int}\nLibRec: !record\n  fields:\n    x: int\n"
+    scen = []
+    for rule, gen, good_arg_def, bad_arg_def in (
+            ("union-duplicate-case", "Either<int, %s>", "Id: string\n", "Id: int\n"),
+            ("map-key-record", "Table<%s>", "Id: string\n", "Id: !record\n  fields:\n    k: int\n")):
+        use = gen % "Id"
+        # (name, lib text, main text without look-alike, extra main text that adds the valid look-alike)
+        scen.append(("%s:imported-alias-same-name" % rule, lib_generics, "%sBad: !record\n  fields:\n    b: Lib.%s\n" % (bad_arg_def, use),
+                     {"lib": "%sGoodUse: %s\n" % (good_arg_def, use)}))
+        scen.append(("%s:type-parameter-shadows-alias" % rule, lib_generics, "%sBad: !record\n  fields:\n    b: Lib.%s\n" % (bad_arg_def, use),
+                     {"main-first": "Slot<Id>: !record\n  fields:\n    good: Lib.%s\n    keep: Id*\n" % use}))
+    scen.append(("union-duplicate-case:same-generic-name-in-two-namespaces", "LibRec: !record\n  fields:\n    x: int\n",
+                 "Result<T>: [T, int]\nBad: !record\n  fields:\n    b: Result<int>\n", {"lib": "Result<T>: [T, string]\nGoodUse: Result<int>\n"}))
+    scen.append(("map-key-record:same-generic-name-in-two-namespaces", "LibRec: !record\n  fields:\n    x: int\n",
+                 "Holder<T>: !map {keys: T, values: string}\nBad: !record\n  fields:\n    b: Holder<Lib.LibRec>\n",
+                 {"lib": "Holder<T>: !map {keys: string, values: T}\nGoodUse: Holder<LibRec>\n"}))
+    proto = "P: !protocol\n  sequence:\n    r: Lib.LibRec\n"
+    for name, lib, main, extra in scen:
+        verdicts = {}
+        for variant in ("control", "lookalike"):
+            cdir = os.path.join(ctx.workdir, "cases", "lookalike_%s_%s" % (name.replace(":", "_"), variant))
+            shutil.rmtree(cdir, ignore_errors=True)
+            lib_t = lib + (extra.get("lib", "") if variant == "lookalike" else "")
+            main_t = (extra.get("main-first", "") if variant == "lookalike" else "") + main + proto
+            common.write_tree(cdir, {"lib/_package.yml": "namespace: Lib\n", "lib/lib.yml": lib_t,
+                                     "main/_package.yml": "namespace: Main\nimports:\n  - ../lib\njson:\n  outputDir: ../out\n", "main/model.yml": main_t})
+            res = {cmd: cli.run_cli(cmd, os.path.join(cdir, "main"), home) for cmd in ("validate", "generate")}
+            ctx.ev(2)
+            verdicts[variant] = (cdir, res)
+        cdir_c, res_c = verdicts["control"]
+        if res_c["validate"].rc != 1:
+            # without the look-alike the construct is not rejected: nothing to compare with (and not this scenario's business)
+            ctx.count("lookalike.control-not-rejected")
+            continue
+        cdir, res = verdicts["lookalike"]
+        ctx.case(("lookalike", name))
+        ctx.count("lookalike.judged")
+        bad = False
+        for cmd, p in res.items():
+            site = cli.panic_site(p.stderr)
+            if site:
+                ctx.violation("panic@%s" % site, "look-alike scenario %s [%s]: crash" % (name, cmd), {"case_dir": cdir, "proc": p.brief()}); bad = True
+            elif p.rc == 0:
+                ctx.violation("accepted:%s:lookalike" % name, "rule violated through type arguments (%s) is accepted by `%s` once the package also holds a valid use with the same spelling; "
+                              "without that use it is rejected" % (name, cmd), {"case_dir": cdir, "control_dir": cdir_c, "proc": p.brief()}); bad = True
+            elif p.rc == 1:
+                files = [d.file for d in cli.parse_diags(p.stderr) if d.level == "error" and d.file]
+                # the rule is broken by the type arguments written in main/model.yml; yardl reports the position of the generic definition and names the
+                # arguments' positions in the message text - either way the offending file is named
+                if not any(os.path.realpath(f) == os.path.realpath(os.path.join(cdir, "main/model.yml")) for f in files) and os.path.join(cdir, "main/model.yml") not in cli.clean(p.stderr):
+                    ctx.violation("wrong-file:lookalike", "look-alike scenario %s [%s]: rejected, but no error names main/model.yml (named %s)" % (name, cmd, files[:3]), {"case_dir": cdir, "proc": p.brief()}); bad = True
+            else:
+                ctx.violation("exit%s" % p.rc, "look-alike scenario %s [%s]: exit status %s" % (name, cmd, p.rc), {"case_dir": cdir, "proc": p.brief()}); bad = True
+        if not bad:
+            shutil.rmtree(cdir, ignore_errors=True)
+            shutil.rmtree(cdir_c, ignore_errors=True)
 
 
 def pos_class(pos):
